@@ -186,6 +186,38 @@ CHECKS = {
                 "source: no other set/dict-order dependent iteration); orders not realised by any scanned seed are not covered",
         "technique": "exhaustive enumeration of induced iteration orders (witness hash seeds), environments and run pairs",
     },
+    "C07": {
+        "category": "exploration",
+        "text": "For 43 cipher-state classes x IPv4/IPv6 x three segment sizes (two connections per capture, distinct MACs/IPs/ports, "
+                "awkward sub-second timestamps) every payload-carrying output packet is attributed to its TLS record through the "
+                "model's byte ranges and must carry the addresses of its connection oriented sender->receiver and the timestamp of "
+                "an input packet overlapping that record; QUIC default + every 1-deviation scenario likewise per datagram; and all "
+                "10^6 microsecond values x 6 second values go through the real Reader->float->Writer timestamp path.",
+        "design_ref": "DESIGN.md section 5, C07",
+        "note": "trusted: the peer models' record/packet byte-range map; layer M drives Reader and Writer as run() does",
+        "technique": "bounded exhaustive enumeration with a model-derived provenance oracle; exhaustive microsecond domain sweep",
+    },
+    "C08": {
+        "category": "fault_enumeration",
+        "text": "All crash points of each history: for 54 TLS captures (9 classes x 6 packetisations incl. records spanning segments, "
+                "coalesced flights, a displaced segment, retransmissions) and 6 QUIC captures (coalescing, key updates, 0-RTT, Retry, "
+                "two flows) the program is run on EVERY prefix 0..N; per connection and direction the export of prefix i must be a "
+                "prefix of the export of prefix i+1 and of the modelled plaintext; the empty capture must give a valid empty file. "
+                "C05's state graphs assert the same clause in every non-terminal state.",
+        "design_ref": "DESIGN.md section 5, C08",
+        "note": "trusted: peer models; cuts are prefixes of the packet list (not mid-packet truncations of the file)",
+        "technique": "exhaustive enumeration of all cut positions (crash points) with a prefix-chain oracle",
+    },
+    "C13": {
+        "category": "exploration",
+        "text": "Every table suite x valid version (x EtM, x TLS 1.3 handshake secrets), every handshake shape within one deviation "
+                "for 9 classes, and QUIC default + every 1-deviation scenario are run with and without -a: the (direction, payload) "
+                "sequence without -a must be a subsequence of the one with -a, ClientHello/ServerHello records must appear verbatim "
+                "as packets of their own, and for QUIC every piece of stream data must still appear in order.",
+        "design_ref": "DESIGN.md section 5, C13",
+        "note": "trusted: peer models; two-deviation shapes are not paired with -a",
+        "technique": "exhaustive product (scenario corpus x option) with a subsequence oracle",
+    },
 }
 
 NOT_YET = "check not built yet in this round (planned: bounded exhaustive exploration, see DESIGN.md section 5)"
